@@ -95,6 +95,8 @@ impl AtomicEpoch {
     /// Loads a value from the atomic epoch.
     #[inline]
     pub(crate) fn load(&self, ord: Ordering) -> Epoch {
+        #[cfg(feature = "circ_verif")]
+        crate::verif::yp(crate::verif::site::EPOCH_LOAD, &self.data as *const AtomicUsize as usize);
         Epoch {
             data: self.data.load(ord),
         }
@@ -103,6 +105,8 @@ impl AtomicEpoch {
     /// Stores a value into the atomic epoch.
     #[inline]
     pub(crate) fn store(&self, epoch: Epoch, ord: Ordering) {
+        #[cfg(feature = "circ_verif")]
+        crate::verif::yp2(crate::verif::site::EPOCH_STORE, &self.data as *const AtomicUsize as usize, epoch.data, 0);
         self.data.store(epoch.data, ord);
     }
 
@@ -127,6 +131,8 @@ impl AtomicEpoch {
         success: Ordering,
         failure: Ordering,
     ) -> Result<Epoch, Epoch> {
+        #[cfg(feature = "circ_verif")]
+        crate::verif::yp2(crate::verif::site::EPOCH_CAS, &self.data as *const AtomicUsize as usize, current.data, new.data);
         match self
             .data
             .compare_exchange(current.data, new.data, success, failure)
